@@ -1122,6 +1122,19 @@ pub fn gen_help_lines(d: &Decl, rng: &mut Rng, reps: usize) -> Vec<HelpCase> {
         }
         out.push(HelpCase { line: render_tokens(&t, rng), kind: "help-option-after-undeclared-options", about: About::Path(p.clone()) });
     }
+    // the help option as the 300th token of the line (token counts and offsets beyond one octet): still a help request
+    for p in paths.iter().filter(|p| resolve_path(d, p).map(|v| v.sub.is_none()).unwrap_or(false)).take(2) {
+        // (a command without sub-commands: after one with sub-commands the first value would name the sub-command asked about)
+        if declares_short_h(d, p) {
+            continue;
+        }
+        let mut t: Vec<String> = p.clone();
+        for i in 0..300 {
+            t.push(format!("v{}", i % 7));
+        }
+        t.push(if rng.chance(50) { "-h".into() } else { "--help".into() });
+        out.push(HelpCase { line: t.join(" "), kind: "help-option-after-300-tokens", about: About::Path(p.clone()) });
+    }
     // help vs parser agreement: a complete invocation (parent options of every level, some of them left without their
     // value, some clustered with a flag) plus a help option somewhere after the last path name
     for p in &paths {
